@@ -14,12 +14,6 @@ func init() {
 	const ep = "AuthorizationEndpoint: $c.AuthorizationEndpoint().Absolute($iss), TokenEndpoint: $c.TokenEndpoint().Absolute($iss), IntrospectionEndpoint: $c.IntrospectionEndpoint().Absolute($iss), UserinfoEndpoint: $c.UserinfoEndpoint().Absolute($iss), RevocationEndpoint: $c.RevocationEndpoint().Absolute($iss), EndSessionEndpoint: $c.EndSessionEndpoint().Absolute($iss), JwksURI: $c.KeysEndpoint().Absolute($iss), DeviceAuthorizationEndpoint: $c.DeviceAuthorizationEndpoint().Absolute($iss)"
 	const ep2 = "AuthorizationEndpoint: $e.Authorization.Absolute($iss), TokenEndpoint: $e.Token.Absolute($iss), IntrospectionEndpoint: $e.Introspection.Absolute($iss), UserinfoEndpoint: $e.Userinfo.Absolute($iss), RevocationEndpoint: $e.Revocation.Absolute($iss), EndSessionEndpoint: $e.EndSession.Absolute($iss), JwksURI: $e.JwksURI.Absolute($iss), DeviceAuthorizationEndpoint: $e.DeviceAuthorization.Absolute($iss)"
 	const common = "Issuer: $iss, GrantTypesSupported: op.GrantTypes($c), CodeChallengeMethodsSupported: op.CodeChallengeMethods($c), RequestParameterSupported: $c.RequestObjectSupported(), TokenEndpointAuthMethodsSupported: op.AuthMethodsTokenEndpoint($c), RevocationEndpointAuthMethodsSupported: op.AuthMethodsRevocationEndpoint($c), IntrospectionEndpointAuthMethodsSupported: op.AuthMethodsIntrospectionEndpoint($c)"
-	route := func(getter, handler string) Ob {
-		return Ob{ID: "E7.routes.provider." + getter, Fn: "op.CreateRouter", P: []string{"o"}, Kind: "call", Pat: "$router.HandleFunc($o." + getter + "().Relative(), " + handler + ")", Max: 1}
-	}
-	route2 := func(field, handler string) Ob {
-		return Ob{ID: "E7.routes.server." + field, Fn: "op.(*webServer).createRouter", P: []string{"s"}, Kind: "call", Pat: "$s.endpointRoute($s.endpoints." + field + ", " + handler + ")", Max: 1}
-	}
 	obs := []Ob{
 		// T2/T4/T5: what the document says
 		{ID: "E8.discovery.provider", Fn: "op.CreateDiscoveryConfig", P: []string{"ctx", "c", "storage"}, Kind: "ret any", Max: 1,
@@ -32,14 +26,7 @@ func init() {
 		{ID: "E8.discovery.server.same-endpoints-routed", Fn: "op.RegisterLegacyServer", P: []string{"s"}, Kind: "ret any", Pat: "ret(op.RegisterServer($s, $s.Endpoints(), __))", Max: 1, Only: true},
 		{ID: "E8.discovery.server.endpoints-getter", Fn: "op.(*LegacyServer).Endpoints", P: []string{"s"}, Kind: "ret any", Pat: "ret($s.endpoints)", Max: 1, Only: true},
 		// routes
-		route("AuthorizationEndpoint", "op.authorizeHandler($o)"), route("TokenEndpoint", "op.tokenHandler($o)"), route("IntrospectionEndpoint", "op.introspectionHandler($o)"),
-		route("UserinfoEndpoint", "op.userinfoHandler($o)"), route("RevocationEndpoint", "op.revocationHandler($o)"), route("EndSessionEndpoint", "op.endSessionHandler($o)"),
-		route("KeysEndpoint", "op.keysHandler($o.Storage())"), route("DeviceAuthorizationEndpoint", "op.DeviceAuthorizationHandler($o)"),
-		{ID: "E7.routes.provider.discovery", Fn: "op.CreateRouter", P: []string{"o"}, Kind: "call", Pat: "$router.HandleFunc(oidc.DiscoveryEndpoint, op.discoveryHandler($o, $o.Storage()))", Max: 1},
-		route2("Authorization", "$s.authorizeHandler"), route2("Token", "$s.tokensHandler"), route2("Introspection", "$s.introspectionHandler"), route2("Userinfo", "$s.userInfoHandler"),
-		route2("Revocation", "$s.withClient($s.revocationHandler)"), route2("EndSession", "$s.endSessionHandler"), route2("JwksURI", "op.simpleHandler($s, $s.server.Keys)"),
-		route2("DeviceAuthorization", "$s.withClient($s.deviceAuthorizationHandler)"),
-		{ID: "E7.routes.server.discovery", Fn: "op.(*webServer).createRouter", P: []string{"s"}, Kind: "call", Pat: "$s.router.HandleFunc(oidc.DiscoveryEndpoint, op.simpleHandler($s, $s.server.Discovery))", Max: 1},
+		// routes: decided by RunRouteTargets below (handler spelling is irrelevant, its target is not)
 		{ID: "E1.routes.server.nil-not-routed", Fn: "op.(*webServer).endpointRoute", P: []string{"s", "e", "hf"}, Kind: "call", Pat: "$s.router.HandleFunc($e.Relative(), _)", Max: 1, Req: []string{"nonnil($e)"}},
 		{ID: "E1.endpoint.absolute.nil", Fn: "op.(*Endpoint).Absolute", P: []string{"e", "host"}, Kind: "ret any", Pat: `ret("")`, Max: 1, Req: []string{"nil($e)"}},
 		{ID: "E1.endpoint.absolute.relative-to-issuer", Fn: "op.(*Endpoint).Absolute", P: []string{"e", "host"}, Kind: "ret any", Pat: "ret(op.absoluteEndpoint($host, $e.path))", Max: 1, Req: []string{`eq($e.url, "")`, "nonnil($e)"}},
@@ -132,6 +119,16 @@ func init() {
 		Rules:       []string{"E1"},
 		Run: func(c *Ctx) {
 			RunE1(c, "C19", obs)
+			RunRouteTargets(c, "E7.routes.provider", "op.CreateRouter", []routeRow{
+				{"AuthorizationEndpoint", []string{"op.Authorize"}}, {"TokenEndpoint", []string{"op.Exchange"}}, {"IntrospectionEndpoint", []string{"op.Introspect"}},
+				{"UserinfoEndpoint", []string{"op.Userinfo"}}, {"RevocationEndpoint", []string{"op.Revoke"}}, {"EndSessionEndpoint", []string{"op.EndSession"}},
+				{"KeysEndpoint", []string{"op.Keys"}}, {"DeviceAuthorizationEndpoint", []string{"op.DeviceAuthorization"}}, {"discovery", []string{"op.Discover"}},
+			}, providerRouteKey)
+			RunRouteTargets(c, "E7.routes.server", "op.(*webServer).createRouter", []routeRow{
+				{"Authorization", []string{"op.Server.Authorize"}}, {"Token", []string{"op.Server.CodeExchange"}}, {"Introspection", []string{"op.Server.Introspect"}},
+				{"Userinfo", []string{"op.Server.UserInfo"}}, {"Revocation", []string{"op.Server.Revocation"}}, {"EndSession", []string{"op.Server.EndSession"}},
+				{"JwksURI", []string{"op.Server.Keys"}}, {"DeviceAuthorization", []string{"op.Server.DeviceAuthorization"}}, {"discovery", []string{"op.Server.Discovery"}},
+			}, serverRouteKey)
 			RunNoFieldWriters(c, "E6.checksession-unwritten", "op", "Endpoints", "CheckSessionIframe", "check_session_iframe is advertised from this field but no route exists: a writer needs a route")
 			RunCallers(c, "E8.issuer.id-token-table", "op.CreateIDToken", []string{"op.CreateTokenResponse", "op.CreateDeviceTokenResponse", "op.CreateTokenExchangeResponse"}, "every ID token is issued with IssuerFromContext(ctx)")
 			RunCallers(c, "E8.issuer.jwt-table", "op.CreateJWT", []string{"op.CreateAccessToken"}, "every JWT access token is issued with IssuerFromContext(ctx)")
